@@ -61,9 +61,9 @@ def rand_assign_spec(g, allow_param=False, allow_null=True):
     if allow_null:
         kinds.append("null")
     if allow_param:
-        kinds += ["param", "param"]
+        kinds += ["param", "param", "bound"]
     k = g.choice(kinds)
-    if k in ("lin", "param"):
+    if k in ("lin", "param", "bound"):
         return [k, [r2(g, -1.5, 1.5) for _ in range(g.randint(1, 3))], r2(g, -1, 1)]
     return [k]
 
@@ -152,6 +152,8 @@ def seed_value(s):
         return s["__np__"][1] if "__np__" in s else s["__ss__"][0]
     if isinstance(s, list):
         return s[0]
+    if s == "default":
+        return 42
     return s
 
 
@@ -167,7 +169,7 @@ def seed_object(world, s):
     """Python value of a seed literal.  A SeedSequence literal names ONE object that the simulated caller
     keeps and passes again (numpy's default_rng accepts it and does not change it)."""
     from .canon import dec
-    if s is not None and not isinstance(s, (int, dict, list)):
+    if s is not None and not isinstance(s, (int, dict, list, str)):
         return s          # already a python object
     if isinstance(s, dict) and "__ss__" in s:
         objs = world.__dict__.setdefault("seed_objects", {})
